@@ -428,6 +428,14 @@ class Ctx:
     def finish(self, level="proof", trusted_base=None, rule="", extra=None):
         wall = time.time() - self.t0
         os.makedirs(os.path.join(VERIF, "replays"), exist_ok=True)
+        try:
+            import gen
+            for item, msg in gen.failures_for(self.prop):
+                self.broke("translator", "py/gen.py no longer recognises the source of `%s` (%s); the previously "
+                           "generated definition was kept, so the theorems were checked against a stale table" % (item, msg),
+                           {"item": item, "message": msg})
+        except ImportError:
+            pass
         lines = []
         rc = 0
         for klass, h in sorted(self.known_hits.items()):
